@@ -5,6 +5,8 @@ package resprops
 // violation); the other half is the serial differential below.
 
 import (
+	"sync/atomic"
+	"net/http"
 	"errors"
 	"fmt"
 	"math/rand"
@@ -220,3 +222,78 @@ func TestC17D2(t *testing.T) {
 type discard struct{}
 
 func (discard) Write(p []byte) (int, error) { return len(p), nil }
+
+// ---------------------------------------------------------------------------------------------
+// a handler is a snapshot: resources may be registered on the Server while a handler obtained earlier serves requests
+
+func TestC17RegistrationWhileServing(t *testing.T) {
+	rec := stats.For("C17")
+	if hx.Replaying() {
+		t.Skip()
+	}
+	rounds := 4
+	for round := 0; round < rounds; round++ {
+		w := &world{mount: "bare"}
+		w.server = restli.NewServer()
+		sl := &slot{hook: benignHook}
+		w.slots.Store("*", sl)
+		half := len(S.Resources) / 2
+		if round%2 == 1 {
+			half = 1 // almost every routing map is still empty when the handler is taken
+		}
+		for _, r := range S.Resources[:half] {
+			dyn.Register(w.server, r, dyn.NewMock(S, r, w.script))
+		}
+		h := w.server.Handler()
+		var paths []string
+		for _, r := range S.Resources {
+			paths = append(paths, "/"+r.Segments[0].Name)
+		}
+		before := map[string]int{}
+		for _, p := range paths {
+			rr := newRecorder()
+			req, _ := http.NewRequest("GET", "http://verif.test"+p+"?q=nosuch", nil)
+			req.Header.Set("X-RestLi-Protocol-Version", "2.0.0")
+			h.ServeHTTP(rr, req)
+			before[p] = rr.Code
+		}
+		var wg sync.WaitGroup
+		stop := make(chan struct{})
+		var bad atomic.Value
+		for g := 0; g < 4; g++ {
+			wg.Add(1)
+			go func(g int) {
+				defer wg.Done()
+				for i := 0; ; i++ {
+					select {
+					case <-stop:
+						return
+					default:
+					}
+					p := paths[(i+g)%len(paths)]
+					rr := newRecorder()
+					req, _ := http.NewRequest("GET", "http://verif.test"+p+"?q=nosuch", nil)
+					req.Header.Set("X-RestLi-Protocol-Version", "2.0.0")
+					h.ServeHTTP(rr, req)
+					if rr.Code != before[p] {
+						bad.Store(fmt.Sprintf("GET %s?q=nosuch on a handler obtained before was answered %d, then %d after resources were registered on the server", p, before[p], rr.Code))
+					}
+				}
+			}(g)
+		}
+		for _, r := range S.Resources[half:] {
+			dyn.Register(w.server, r, dyn.NewMock(S, r, w.script))
+			runtime.Gosched()
+		}
+		close(stop)
+		wg.Wait()
+		rec.Case("registration_while_serving")
+		rec.NonTrivial("registration-while-serving", fmt.Sprintf("reg|%d|%d", round, half), func() any {
+			return map[string]any{"resources_before_handler": half, "registered_while_serving": len(S.Resources) - half}
+		})
+		if m, _ := bad.Load().(string); m != "" {
+			rec.Violation("registration-while-serving", m, map[string]any{"round": round})
+			t.Fatal(m)
+		}
+	}
+}
